@@ -394,31 +394,31 @@ impl RoundedRectangleContains {
             return false;
         }
 
-        if point.y < self.straight_rows_left.start
-            && point.x < self.top_left.bounding_box().columns().end
-        {
-            return self.top_left.contains(point);
+        // The corners on the left and right side are checked independently, because the bounding
+        // boxes of two opposite corners can overlap, in which case a point needs to be inside
+        // both corner ellipses. This is the same logic that is used by the `Scanlines` iterator.
+        let left_corner = if point.y < self.straight_rows_left.start {
+            Some(&self.top_left)
+        } else if point.y >= self.straight_rows_left.end {
+            Some(&self.bottom_left)
+        } else {
+            None
         }
+        .filter(|corner| point.x < corner.bounding_box().columns().end);
 
-        if point.y < self.straight_rows_right.start
-            && point.x >= self.top_right.bounding_box().columns().start
-        {
-            return self.top_right.contains(point);
+        let right_corner = if point.y < self.straight_rows_right.start {
+            Some(&self.top_right)
+        } else if point.y >= self.straight_rows_right.end {
+            Some(&self.bottom_right)
+        } else {
+            None
         }
+        .filter(|corner| point.x >= corner.bounding_box().columns().start);
 
-        if point.y >= self.straight_rows_left.end
-            && point.x < self.bottom_left.bounding_box().columns().end
-        {
-            return self.bottom_left.contains(point);
-        }
-
-        if point.y >= self.straight_rows_right.end
-            && point.x >= self.bottom_right.bounding_box().columns().start
-        {
-            return self.bottom_right.contains(point);
-        }
-
-        true
+        left_corner
+            .into_iter()
+            .chain(right_corner)
+            .all(|corner| corner.contains(point))
     }
 }
 
